@@ -324,6 +324,11 @@ func (rc *RunCtx) runJob(j Job) (res *JobResult) {
 		}
 	}()
 	e.NoMerge = j.NoMerge
+	maxSecs := 1500
+	if v, err := strconv.Atoi(os.Getenv("GOSYM_MAXSECS")); err == nil && v > 0 {
+		maxSecs = v
+	}
+	e.Deadline = time.Now().Add(time.Duration(maxSecs) * time.Second)
 	e.Trace = os.Getenv("GOSYM_TRACE") != ""
 	e.Ctx["known"] = rc.Known
 	if os.Getenv("GOSYM_FORKS") != "" {
